@@ -46,6 +46,11 @@ def pre_build(a):
         _tab.update(tablegen.generate())
     except tablegen.TranslateError as ex:
         _tab.update({"failed": str(ex)})
+        try:        # the constants still translate on their own: keep them, so that the search for a failing input can probe around every constant value
+            consts, skipped = tablegen.parse_consts(open(os.path.join(tablegen.REPO, "src", "abi.rs")).read())
+            _tab.update({"consts": consts, "skipped": skipped})
+        except Exception:
+            pass
         raise vlib.Broken("translator could not translate /repo/src: %s" % ex)
 
 
